@@ -25,7 +25,7 @@ TRUSTED_BASE = BASE_TRUSTED + [
 RULE = ('eleven closed-form stigmatic configurations (paraboloid at infinity, incl. after a fold mirror with Rc>0; spherical mirror at its centre of curvature; '
         'ellipsoid mirror focus-to-focus both ways; Cassegrain and Gregorian (hyperboloid/ellipsoid secondary); plano-hyperbolic singlet k=-n^2 both directions of travel; '
         'refracting ellipsoid; convex hyperboloid mirror from its far focus (virtual image, ray-level clauses); plano-hyperbolic + aplanatic meniscus, image in air or immersed), half of them reached through an edit history '
-        '(built with other conic/radius/thickness/index, incl. flat-first, then set_conic/set_radius/set_thickness/set_index); mirror-only configurations also immersed in a medium n in [1.3,4] (object and image space included) or as a solid catadioptric block (plane entrance face, mirrors as back surfaces), the optical path being re-computed as sum(n x segment length) with the indices of the generated PRESCRIPTION; the stop as a separate plane in contact (thickness 0) with the vertex of a convex conic, pupil-centre ray included; the axial field carries random vignetting factors (vx, vy independent, incl. 0 and unequal) in 40% of the instances; seeded radii 15..600 mm, n in [1.3,4], apertures from f/8 to f/0.6 '
+        '(built with other conic/radius/thickness/index, incl. flat-first, then set_conic/set_radius/set_thickness/set_index); mirror-only configurations also immersed in a medium n in [1.3,4] (object and image space included) or as a solid catadioptric block (plane entrance face, mirrors as back surfaces), the optical path being re-computed as sum(n x segment length) with the indices of the generated PRESCRIPTION; conics also entered through the even-asphere / polynomial surface types with no polynomial term (Newton-Raphson path, rim ray inside 0.7|Rc|); Optic reached by lensgen.build_via routes handbuilt / reuse-after-reset / to_dict-from_dict; built 1/s times its size and brought to size by scale_system(s); every object checked against the generated prescription (lensgen.prescription_problems + object distance + EPD); 25 fixed corpus cases, one per class; the stop as a separate plane in contact (thickness 0) with the vertex of a convex conic, pupil-centre ray included; the axial field carries random vignetting factors (vx, vy independent, incl. 0 and unequal) in 40% of the instances; seeded radii 15..600 mm, n in [1.3,4], apertures from f/8 to f/0.6 '
         '(NA to 0.9), 16-24 pupil points incl. the rim; FFTPSF sampled with every parity of num_rays, grid_size (odd grids 65..255) and of their difference; non-trivial = instance whose marginal ray is finite at the image')
 PARTIAL = [
     'conic_mirror_from_focus derives the vertex sheet from the distance kernel itself (sheet filter, dc4c87d); the plano-hyperbolic/aplanatic theorems and conic_mirror_stigmatic still take "the hit point lies on the vertex sheet of the conic" as a hypothesis (the exact hit distance '
@@ -228,6 +228,8 @@ def _instances(ctx, per_config, salt=0):
     import c06_lib
     rng = random.Random(ctx.seed * 131 + 6 + salt)
     out = []
+    if salt == 0:
+        out.extend(c06_lib.corpus())          # fixed cases, one per class that matters (seed-independent)
     for name in c06_lib.CONFIGS:
         for _ in range(per_config):
             out.append(c06_lib.gen_config(rng, name))
@@ -238,6 +240,8 @@ def _witness(cfg, violations, n_sin_u=None):
     return {'config': cfg['name'], 'params': cfg['params'], 'spec': cfg['spec'],
             'edits_after_build': cfg.get('edits') or [], 'vignetting_vx_vy': cfg.get('vignetting'),
             'medium_class': cfg.get('medium_class', 'air'), 'contact_stop': bool(cfg.get('contact_stop')),
+            'entry': cfg.get('entry', 'standard'), 'route': cfg.get('route', 'direct'), 'route_seed': cfg.get('route_seed'),
+            'scaled_by': cfg.get('scaled_by'), 'corpus_case': cfg.get('corpus'),
             'image_in_glass': cfg.get('image_in_glass'), 'n_sin_u_image': n_sin_u,
             'violations': violations, 'violates_property': True}
 
@@ -281,7 +285,7 @@ def system_checks(ctx):
         try:
             o = c06_lib.build(cfg)
             pts = c06_lib.pupil_points(rng, nr)
-            recs = c06_lib.trace_pencil(o, pts)
+            recs = c06_lib.trace_pencil(o, pts, one_by_one=cfg.get('entry', 'standard') != 'standard')
         except Exception as e:     # noqa
             resA['disagreements'].append(_witness(cfg, [{'kind': 'build-or-trace-raises', 'error': repr(e)[:200]}]))
             continue
@@ -306,6 +310,11 @@ def system_checks(ctx):
         if any(cfg.get('vignetting') or []):
             key = 'vignetted_axial_field(vx!=vy)' if cfg['vignetting'][0] != cfg['vignetting'][1] else 'vignetted_axial_field(vx==vy)'
             resA['histogram'][key] = resA['histogram'].get(key, 0) + 1
+        for key in ('entry:' + cfg.get('entry', 'standard'), 'route:' + cfg.get('route', 'direct'),
+                    'brought_to_size_by_scale_system' if cfg.get('scaled_by') else None,
+                    'fixed_corpus_case' if cfg.get('corpus') else None):
+            if key and key not in ('entry:standard', 'route:direct'):
+                resA['histogram'][key] = resA['histogram'].get(key, 0) + 1
         if cfg.get('medium_class', 'air') != 'air':
             key = 'mirrors_' + cfg['medium_class'] + '_in_medium_n!=1'
             resA['histogram'][key] = resA['histogram'].get(key, 0) + 1
@@ -416,7 +425,7 @@ def system_checks(ctx):
             else:
                 sval = m[1]
                 res['n'] += m[2]
-                viol = not (abs(sval - 1.0) <= 1e-9)
+                viol = not (abs(sval - 1.0) <= c06_lib.strehl_tolerance(cfg))
                 if math.isfinite(sval):
                     res['nontrivial'] += 1
             if r[1] > 0:          # model and implementation disagree
@@ -470,10 +479,12 @@ def system_checks(ctx):
     else:
         resD['nontrivial'] += 1
     resD['histogram']['regression_cases'] = 1
-    for name in c06_lib.VIRTUAL_CONFIGS:
-        for _ in range(ctx.n(10, 60)):
-            cfg = c06_lib.gen_config(rngD, name)
-            bad = c06_lib.oracle_virtual(cfg, rngD, nr)
+    virt = c06_lib.corpus_virtual() + [c06_lib.gen_config(rngD, name) for name in c06_lib.VIRTUAL_CONFIGS
+                                       for _ in range(ctx.n(10, 60))]
+    for cfg in virt:
+        for _once in (0,):
+            name = cfg['name']
+            bad = c06_lib.prescription_check(cfg, c06_lib.build(cfg)) + c06_lib.oracle_virtual(cfg, rngD, nr)
             resD['n'] += nr
             resD['histogram']['vignetted'] += int(any(cfg.get('vignetting') or []))
             resD['histogram']['reached_by_edit_history'] += int(bool(cfg.get('edits')))
@@ -506,6 +517,8 @@ def search(ctx, broken, disagreements):
             bad = c06_lib.oracle_virtual(cfg, rng)
             if bad and len(found) < 10:
                 found.append(_witness(cfg, bad))
+    known = [f for f in __import__('vlib').load_known_findings(PROP)]
+    found.sort(key=lambda w: any(matches_finding(w, f) for f in known))      # witnesses of no open finding first
     return found or None
 
 
